@@ -28,14 +28,15 @@ FLOORS = {"has-dict-options": 0.35}
 @st.composite
 def cases(draw, tier="quick"):
     universe = draw(gen.key_universe(gen.ASCII_KEY_POOLS, min_size=2, max_size=6))
-    extra = ["n_1", "n_2", "n_30", "n_1x", "m_2", "1", "22"]
+    extra = ["n_1", "n_2", "n_30", "n_1x", "m_2", "1", "22", "usd$", "usd$_old", "^x", "a^x", "x$"]
     uni2 = universe + [k for k in extra if draw(st.integers(0, 2)) == 0]
     big = tier == "thorough"
     samples = draw(st.one_of(gen.dictlike_samples(universe), gen.dictlike_samples(universe),
                              gen.sample_lists(uni2, max_samples=6 if big else 4, max_leaves=12 if big else 8)))
     if draw(st.booleans()):
         samples = samples + draw(gen.dictlike_samples(universe))
-    dkr = draw(st.lists(st.sampled_from(gen.REGEX_POOL + [universe[0], r"[a-z]", r"n_\d"]), max_size=3, unique=True))
+    dkr = draw(st.lists(st.sampled_from(gen.REGEX_POOL + [universe[0], r"[a-z]", r"n_\d", r"\w+\$", r"usd\$", r"\^x", r"\^?x\$?", r"x\$"]),
+                        max_size=3, unique=True))
     dkf = draw(st.lists(st.sampled_from(uni2), max_size=3, unique=True))
     opts = {"dkr": dkr, "dkf": dkf, "merge": draw(gen.merge_policies()), "sreg": draw(gen.sregs()),
             "cli_form": draw(st.booleans())}
